@@ -483,8 +483,12 @@ class HostConnection(object):
             if is_down:
                 self.shutdown()
             else:
-                self._connection = None
                 with self._lock:
+                    if self._connection is not connection:
+                        # replaced since the check above: the connection installed
+                        # meanwhile is the pool's current one and stays
+                        return
+                    self._connection = None
                     if self._is_replacing:
                         return
                     self._is_replacing = True
